@@ -102,6 +102,13 @@ def cases(ctx):
             C.append(dict(proto=p, op=op, oids=[oids[0]], vals=[("Integer", 1)], reqid=r, nr=0, mr=3))
     for o in oids:
         C.append(dict(proto=rnd.choice(PROTOS), op="multiget", oids=[o, oids[0]], reqid=rnd.choice(REQIDS), nr=0, mr=0))
+    # credentials switched after construction: the datagram follows the credentials in force
+    for ini in ("v1", "v2c", "v3n", "v3a_md5"):
+        for proto in ("v1", "v2c", "v3n", "v3p_sha"):
+            if ini != proto:
+                for warm in (False, True):
+                    C.append(dict(proto=proto, initial=ini, warm=warm, op=rnd.choice(["get", "set", "getnext"]), oids=[oids[0]], vals=[("Integer", 7)],
+                                  reqid=1700000000, nr=0, mr=0, community="second"))
     return C
 
 
